@@ -267,6 +267,90 @@ static bool runBq(uint64_t seed, uint64_t idx)
   return true;
 }
 
+// ---- burst wake-up scenario: K callers parked on one condition, the condition becomes true for
+// several of them back-to-back, then everything goes quiet. With nothing else in flight, "queue
+// non-empty and a consumer still parked in dequeue()" (resp. "space free and a producer still parked
+// in queue()") is a state that can only end by a wake-up that has already been lost.
+static bool runBurst(uint64_t seed, uint64_t idx)
+{
+  auto &O = vf::out();
+  vf::Rng rng(seed, idx ^ 0xb0b0);
+  size_t cap = size_t(rng.range(2, 8));
+  int nWait = int(rng.range(2, 6));
+  auto q = new BlockingQueue<Item>(cap);
+  bool consumersParked = rng.chance(0.5); // which side is parked
+#if !VF_TSAN
+  vf::shim::condvarPolicy().maxDelayUs = 0;
+#endif
+  std::atomic<int> inCall{0}, done{0};
+  std::atomic<uint64_t> moved{0};
+  std::vector<std::thread> th;
+  std::atomic<bool> release{false};
+  if (!consumersParked) for (size_t i = 0; i < cap; i++) { Item it; it.producer = 9; it.seq = uint32_t(i); it.check = Item::mk(9, it.seq); q->tryQueue(it); }
+  for (int w = 0; w < nWait; w++)
+    th.emplace_back([&, w]() {
+      Item it; it.producer = uint32_t(20 + w); it.seq = 0; it.check = Item::mk(it.producer, 0);
+      inCall++;
+      bool ok = consumersParked ? q->dequeue(it) : q->queue(it);
+      inCall--;
+      if (ok) moved++;
+      done++;
+    });
+  // let every waiter reach its park (they have nothing else to do); a straggler only makes the case easier
+  for (int i = 0; i < 200 && inCall.load() < nWait; i++) vf::sleepMs(0.1);
+  vf::sleepMs(2 + double(rng.below(3)));
+  int k = int(rng.range(2, uint64_t(std::min<size_t>(size_t(nWait), cap))));
+  int api = int(rng.below(4));
+  for (int i = 0; i < k; i++)
+  {
+    Item it; it.producer = 8; it.seq = uint32_t(i); it.check = Item::mk(8, it.seq);
+    if (consumersParked)
+    {
+      bool ok = api == 0 ? q->queue(it) : api == 1 ? q->queue(Item(it)) : api == 2 ? q->tryQueue(it) : q->tryQueue(it, std::chrono::milliseconds(50));
+      if (!ok) { k = i; break; }
+    }
+    else
+    {
+      bool ok = api == 0 ? q->dequeue(it) : api == 1 ? q->tryDequeue(it) : q->dequeue(it, std::chrono::milliseconds(50));
+      if (!ok) { k = i; break; }
+    }
+  }
+  // quiet period: exactly k waiters must get through
+  bool stuck = false;
+  uint64_t t0 = vf::nowNs();
+  while (moved.load() < uint64_t(k))
+  {
+    vf::sleepMs(0.5);
+    if (vf::nowNs() - t0 > 6000ull * 1000000ull) { stuck = true; break; }
+  }
+  size_t sz = q->size();
+  bool conditionHolds = consumersParked ? sz > 0 : sz < cap;
+  O.obs(consumersParked ? "bq_burst_consumers_parked" : "bq_burst_producers_parked");
+  O.caseSig(vf::fnv(&idx, sizeof idx) ^ (consumersParked ? 0x51 : 0x52) ^ (uint64_t(api) << 8) ^ (uint64_t(cap) << 16));
+  if (stuck && conditionHolds && inCall.load() > 0)
+  {
+    std::ostringstream d;
+    d << "{\"scenario\":" << idx << ",\"seed\":" << seed << ",\"cap\":" << cap << ",\"parked\":" << nWait << ",\"burst\":" << k << ",\"got_through\":" << moved.load()
+      << ",\"size\":" << sz << ",\"api\":" << api << ",\"closed\":false}";
+    O.viol(consumersParked ? "C10:bq:stuck-with-item-available:dequeue" : "C10:bq:stuck-with-space-available:queue",
+           "with nothing else in flight a caller stayed parked 6 s although its condition (item / space) holds: lost wake-up on put/take", d.str());
+    for (auto &t : th) t.detach();
+    return false;
+  }
+  q->close();
+  uint64_t t1 = vf::nowNs();
+  while (done.load() < nWait) { vf::sleepMs(0.5); if (vf::nowNs() - t1 > 6000ull * 1000000ull) break; }
+  if (done.load() < nWait)
+  {
+    O.viol("C10:bq:stuck-after-close:burst", "caller still parked 6 s after close()", "{\"scenario\":" + std::to_string(idx) + "}");
+    for (auto &t : th) t.detach();
+    return false;
+  }
+  for (auto &t : th) t.join();
+  delete q;
+  return true;
+}
+
 // ------------------------------------------------------------------------------ ring buffers
 template <class RB> struct RingRun
 {
@@ -429,7 +513,7 @@ int main(int argc, char **argv)
   {
     uint64_t i = from;
     for (; i < from + count; i++)
-      if (!runBq(seed, i)) { O.line("{\"t\":\"stopped\",\"at\":" + std::to_string(i) + "}"); O.flush(); fflush(nullptr); _exit(0); }
+      if (!((i % 4 == 3) ? runBurst(seed, i) : runBq(seed, i))) { O.line("{\"t\":\"stopped\",\"at\":" + std::to_string(i) + "}"); O.flush(); fflush(nullptr); _exit(0); }
 #if !VF_TSAN
     O.obs("condvar_waits", vf::shim::condvarPolicy().waits); O.obs("condvar_prepark_delays", vf::shim::condvarPolicy().delayed);
 #endif
